@@ -1,7 +1,9 @@
 HOOK_COMMITS = ["9db45bf"]
 ENGINES = [
+    {"name": "cli-driver", "path": "/verif/driver/checks/c12.py, c13.py (+ CLI legs of c01, c05)",
+     "serves_properties": ["C01", "C05", "C12", "C13"], "kind_free_text": "the real release binary (built from /repo's working tree into /verif/target/cli), one child process per case, exit status / stdout / stderr / files observed, faults injected through the file system, /dev/full, closed descriptors and a setuid child"},
     {"name": "evalsrv+python-monitors", "path": "/verif/harness/src/bin/evalsrv.rs + /verif/driver",
-     "serves_properties": ["C01", "C03", "C05", "C06", "C08", "C10", "C11", "C14", "C15", "C16", "C17", "C18", "C19", "C20"], "kind_free_text": "batch evaluation server over the public rsjsonnet API (Program/Session/Lexer/Parser/SpanManager) observed by Python oracles (reference models, independent decoders, metamorphic relations)"},
+     "serves_properties": ["C01", "C02", "C03", "C04", "C05", "C06", "C07", "C08", "C09", "C10", "C11", "C13", "C14", "C15", "C16", "C17", "C18", "C19", "C20"], "kind_free_text": "batch evaluation server over the public rsjsonnet API (Program/Session/Lexer/Parser/SpanManager) observed by Python oracles (reference models, independent decoders, metamorphic relations)"},
     {"name": "gcheap", "path": "/verif/harness/src/bin/gcheap.rs",
      "serves_properties": ["C03"], "kind_free_text": "scripted-heap driver over the real collector (hook 2) with a reference reachability model; exhaustive small scope + random large scope; also run under Miri"},
 ]
@@ -96,5 +98,44 @@ CHECKS = {
         "text": "Exploration: 70+ failing templates x paddings (CRLF, tabs, multi-byte, invalid UTF-8, 10^5-column lines) and corpus mutants covering ~60 error kinds: all spans inside their source, reports render with an error header, right file/line/(ASCII) column, consistent cropping arithmetic, colour-stripped == plain; 10^6-10^8 span registrations over contexts up to 2^40 bytes round-trip unchanged.",
         "note": _BASE_NOTE + " One open known finding (sourceannot assertion on zero-width spans). Columns compared only where display width equals byte offset.",
         "design_ref": "DESIGN.md section 2 C16",
+    },
+    "C02": {
+        "technique": "runtime monitoring: differential oracle = reference interpreter written from the specification, on typed random programs generated as syntax trees and printed in two styles; plus hand-derived feature-interaction templates",
+        "text": "Exploration: for every generated program (all core features: operators, strings/arrays, slices, locals, functions with default/named arguments and recursion, conditionals, both comprehension kinds, objects with inheritance, self/super/$, visibilities, +:, object locals, asserts, error, in, in super) the manifested value, or the failure class with the message for error/assert, equals the reference interpreter's; ~80 templates with values derived by hand from the specification.",
+        "note": _BASE_NOTE + " driver/refinterp.py is the trusted reading of the specification; programs whose number rendering conventions differ are skipped and counted.",
+        "design_ref": "DESIGN.md section 2 C02, Appendix B/G",
+    },
+    "C04": {
+        "technique": "runtime monitoring: std.trace instrumentation of every binding site with the trace multiset checked against the reference interpreter's force log; metamorphic rewrites (8 kinds) and dead-binding replacement compared on value, error and trace sequence",
+        "text": "Exploration: each thunk instance is evaluated at most once and dead instances never (label multisets equal the call-by-need model's), every binding that was not evaluated can be replaced by a failing expression, and 3 random meaning-preserving rewrites per program leave value, error message and trace output unchanged; a table of ~50 builtins/constructs with failing unused elements and traced-once used elements.",
+        "note": _BASE_NOTE + " Trace order is only compared between a program and its rewrites.",
+        "design_ref": "DESIGN.md section 2 C04",
+    },
+    "C07": {
+        "technique": "runtime monitoring: metamorphic relations (all bracketings of + chains, {} identity) on manifestation and an introspection vector; agreement laws between manifestation/length/in/objectHas/objectFields; reference-model visibility tables; objectRemoveKey field-table and unrelated-value monitors",
+        "text": "Exploration: chains of 2-5 generated objects (incl. results of objectRemoveKey/mergePatch/prune/mapWithKey) manifest and introspect identically in every bracketing and with {} on either side; the ways of asking which fields exist agree; visibility follows the : :: ::: rules of the reference model; objectRemoveKey removes exactly the key, keeps other visibilities and the values of fields that do not read it.",
+        "note": _BASE_NOTE + " A field 'does not read' key K iff it still evaluates when K is overridden by a failing field.",
+        "design_ref": "DESIGN.md section 2 C07",
+    },
+    "C09": {
+        "technique": "runtime monitoring: differential oracle = scope checker written from the specification's static rules, on load-only runs of generated programs with renamed binders (shadowing/duplicates/captures) and 13 kinds of injected faults at random positions; evaluation of accepted programs monitored for unbound-variable panics",
+        "text": "Exploration: accept/reject, AnalyzeError variant, reported name and (for unbound variables, self, $) the exact span equal the oracle's on typed programs, pool-renamed programs, fault injections at every syntactic role (dead branches, unused locals, defaults, comprehension specs, field-name expressions, object locals) and arbitrary syntactic trees; nothing is evaluated at load; accepted programs never hit an unbound variable at run time.",
+        "note": _BASE_NOTE,
+        "design_ref": "DESIGN.md section 2 C09",
+    },
+    "C12": {
+        "technique": "runtime monitoring with fault injection: the real CLI as a black box, one child per case, against a Python model of the output modes; injected faults (file system, /dev/full, closed stdout, setuid child)",
+        "engine": "cli-driver",
+        "category": "fault_enumeration",
+        "text": "Fault enumeration + exploration: 16 injected I/O faults each must give exit 1 with a message; generated values x input channel x mode x -o x --no-trailing-newline against the mode model (exit status, stdout, -o file, -m files and listing); ext vars/TLAs in all eight forms with hostile values, lazy ext code, duplicates, missing/unknown TLAs; failing programs of every error family leave stdout and the -o file untouched.",
+        "note": _BASE_NOTE + " One open known finding (closed stdout: the Rust standard library swallows EBADF). A closed or full stderr is outside the property's fault list.",
+        "design_ref": "DESIGN.md section 2 C12",
+    },
+    "C13": {
+        "technique": "runtime monitoring with fault injection: generated directory trees run through the real CLI against a Python model of the import search, load-once observed through one std.trace per file, content oracles (lossy UTF-8 / exact bytes)",
+        "engine": "cli-driver",
+        "text": "Exploration with an exhaustive sub-space (one name placed in every subset of {importer dir, J1, J2, J3} x every order and count of -J flags): every import delivers the file the stated search order selects, each file is evaluated once however spelled (./, ../, symlinks, absolute), std.thisFile is the first load path, importstr/importbin deliver lossy text / exact bytes, and missing/directory/dangling/looping/unreadable targets exit 1 with the error at the import expression.",
+        "note": _BASE_NOTE + " Importers are real files (code given with -e has no directory of its own).",
+        "design_ref": "DESIGN.md section 2 C13",
     },
 }
